@@ -21,6 +21,10 @@ type Program struct {
 	Funcs     map[string]*ssa.Function // key: "<pkgshort>.<relstring>" e.g. "pubsub.(*Queue).popFront"
 	Contracts map[string]*ContractFile // by pkg short name (path relative to module, "" -> "fun")
 	RepoDir   string
+	locks     map[string]*lockDecl
+	condLocks map[string]string
+	guards    map[string]string
+	wkinds    map[string][]*waitKind
 }
 
 func pkgShort(path string) string {
